@@ -28,6 +28,56 @@ def _main_check(ctx: Ctx) -> None:
     ctx.floor("derivation routes", len(ownership.ROUTES), 11)
     own2(ctx, eng)
     own3(ctx, eng)
+    adopt_rule(ctx, eng)
+
+
+def adopt_rule(ctx: Ctx, eng) -> None:
+    """ADOPT: an operation that takes other sequences in (`concatenate`, `merge`) does not leave *their* message objects in a view
+    of the receiver that stays in use.  Either the view-level method copies what it takes, or the Sequence wrapper leaves the
+    adopting view stale on every exit -- it is then rebuilt from the other view, which the copying conversion (OWN1) derived from
+    it.  Otherwise `c = o.copy(); c.concatenate([o]); c.transpose(2)` transposes `o`'s own messages: the copy and its original
+    are no longer independent, and the original's two views disagree."""
+    from ..engines.typestate import TypestateEngine, PRE_STATES, S
+    p = ctx.p
+    ts = TypestateEngine(p, "Sequence")
+    n = 0
+    for w in ("concatenate", "merge"):
+        fi = ts.ci.methods.get(w)
+        if fi is None:
+            ctx.undetermined("ADOPT", f"Sequence.{w}", "method not found: not judged")
+            continue
+        ctx.analysed(fi)
+        calls = [c for c in walk_local(fi.node) if isinstance(c, ast.Call) and call_method(c)[0] is not None
+                 and attr_chain(call_method(c)[0]) in (["self", "abs"], ["self", "rel"])]
+        adopting = []
+        for c in calls:
+            view = attr_chain(call_method(c)[0])[1]
+            m = p.lookup_method(ts.view_class[view], call_method(c)[1])
+            if m is None:
+                continue
+            ctx.analysed(m)
+            got = ownership.adopted_foreign(eng, m)
+            n += 1
+            if got:
+                adopting.append((view, m, got))
+            else:
+                ctx.ok("ADOPT", f"{m.qualname}: takes no message object of its arguments into the receiver (copies, or takes nothing)")
+        for view, m, got in adopting:
+            bad = []
+            for pname, pre in PRE_STATES.items():
+                exits, problems, _ = ts.analyse_method(w, pre)
+                for node, wld, how in exits:
+                    if how == "raise":
+                        continue
+                    flag = wld.fa if view == "abs" else wld.fr
+                    if flag != S:
+                        bad.append(pname)
+            ctx.check(not bad, "ADOPT", f"Sequence.{w}: the {view} view, which `{m.qualname}` fills with the arguments' own message objects, is left stale on every exit",
+                      function=fi.qualname, construct=f"Sequence.{w} keeps message objects of its arguments in its own {view} view",
+                      message=f"`{short(got[0][0], 70)}` stores {got[0][1]} without copying and Sequence.{w} leaves that view in use (from [{', '.join(sorted(set(bad)))}]): "
+                              f"a later in-place operation on the receiver (transpose, set_channel, quantise ...) changes the argument sequences as well",
+                      file=m.file, node=got[0][0])
+    ctx.floor("sequence-taking operations inspected", n, 2)
 
 
 def stored_params(ctx: Ctx, cls: str) -> dict[str, str]:
